@@ -426,6 +426,13 @@ def fam_eoi(tier, seed):
         ("eoi_alt", [Rule(alt(cat(C("a"), EOI), S("ab"))), Rule(C("a")), Rule(C("b"))]),
         ("no_eoi", [Rule(S("ab")), Rule(C("a"))]),
         ("opt_then_eoi", [Rule(cat(C("a"), opt(C("b")), EOI)), Rule(C("a")), Rule(C("b"))]),
+        # rules that match the empty string: Init still ends the stream with `None` when the input runs
+        # out at a lexeme boundary (C09 excludes these lexers, C05 does not)
+        ("nullable_init", [Rule(cat(opt(C("-")), star(SET(("0", "9")))))]),
+        ("nullable_init_star", [Rule(star(SET(("a", "z")))), Rule(C("1"))]),
+        ("nullable_init_second", [Rule(C("1")), Rule(star(C("a")))]),
+        ("nullable_init_with_eoi", [Rule(star(C("a"))), Rule(EOI)]),
+        ("nullable_init_opt", [Rule(opt(S("ab"))), Rule(C("a"))]),
     ]
     for n, rs in defs:
         out.append(Witness("eoi_" + n, "eoi", Def(top=rs)))
@@ -436,6 +443,8 @@ def fam_eoi(tier, seed):
                              ("R", [Rule(cat(plus(C("b")), EOI)), Rule(C("b"))])]),
         ("rs_both", [("Init", [Rule(EOI), Rule(C("a"))]), ("R", [Rule(EOI), Rule(C("b"))]),
                      ("Q", [Rule(C("c"))])]),
+        ("rs_nullable_other", [("Init", rules(C("a"))), ("R", [Rule(star(C("b"))), Rule(C("c"))])]),
+        ("rs_nullable_init", [("Init", [Rule(star(C("a"))), Rule(C("b"))]), ("R", [Rule(C("c"))])]),
     ]
     for n, s in sets:
         out.append(Witness("eoi_" + n, "eoi", Def(sets=s)))
@@ -467,6 +476,16 @@ def fam_classes(tier, seed):
         ("overlap_dup", SET(("a", "c"), ("a", "c"), "b")),
         ("repeat_char", SET("a", "a", "b")),
         ("touching", SET(("a", "c"), ("d", "f"))),
+        # an item inside a wider one (in both orders), and an item that covers earlier items and the
+        # gaps between them
+        ("nested_range", SET(("a", "z"), ("c", "e"))),
+        ("nested_range_rev", SET(("c", "e"), ("a", "z"))),
+        ("nested_char", SET(("a", "z"), "e")),
+        ("nested_same_start", SET(("a", "z"), ("a", "c"))),
+        ("cover_gap", SET(("a", "c"), ("x", "z"), ("b", "y"))),
+        ("cover_gaps3", SET(("b", "c"), ("f", "g"), ("j", "k"), ("a", "m"))),
+        ("cover_gap_diff_l", diff(SET(("a", "c"), ("x", "z"), ("b", "y")), C("m"))),
+        ("cover_gap_diff_r", diff(SET(("a", "z")), SET(("c", "d"), ("p", "q"), ("b", "r")))),
         ("single_and_range", SET("a", ("a", "a"), ("b", "d"))),
         ("remove_piece_exact", diff(SET(("a", "c"), ("e", "g")), SET(("e", "g")))),
         ("remove_first_exact", diff(SET(("a", "c"), ("e", "g")), SET(("a", "c")))),
@@ -508,6 +527,16 @@ def fam_classes(tier, seed):
     out.append(Witness("classes_mixed_state", "classes", Def(top=rules(
         cat(diff(SET(("a", "k")), SET(("c", "e"))), C("1")), cat(C("d"), C("2")), cat(ANY, C("3")),
         cat(SET(("j", "p")), C("4"))))))
+    # two classes whose overlap is exactly the surrogate block: the piece U+D800..U+DFFF of the merged
+    # range map has a target set of its own and is dropped when the pieces are clamped to `char`s
+    lo_sur = diff(ANY, SET((chr(0xE000), chr(0x10FFFF))))      # U+0000..U+DFFF
+    sur_hi = diff(ANY, SET((chr(0), chr(0xD7FF))))              # U+D800..U+10FFFF
+    out.append(Witness("classes_surrogate_overlap", "classes", Def(top=rules(
+        cat(lo_sur, C("1")), cat(sur_hi, C("2"))))))
+    out.append(Witness("classes_surrogate_overlap_alt", "classes", Def(top=rules(
+        alt(cat(lo_sur, C("1")), cat(sur_hi, C("2"))), cat(C("a"), C("3"))))))
+    out.append(Witness("classes_surrogate_overlap_any", "classes", Def(top=rules(
+        cat(lo_sur, C("1")), cat(sur_hi, C("2")), cat(ANY, C("3"))))))
     n_rand = 100 if tier == "quick" else 520
     rnd = random.Random((seed if tier == "thorough" else 0) + 17)
     # the class algebra over a small universe: canonical and scrambled spellings of subsets of
@@ -930,6 +959,47 @@ def fam_illformed(tier, seed):
     pair("syntax_bad_item", lx("    fn x() {}\n    'a' = 1,"), lx("    'a' = 1,"), "unknown item")
     pair("syntax_no_arrow", "lexgen::lexer! {\n    L usize;\n    'a' = 1,\n}\n", lx("    'a' = 1,"),
          "missing -> in header")
+    # malformed syntax, one token-level slip each, at the places where a regex may stand (rule, `let`,
+    # right context, operand of an operator)
+    slips = [
+        ("builtin_no_name", "    'a' $$ = 1,", "    'a' $ = 1,", "`$$` without a name"),
+        ("builtin_no_name_alt", "    $$ | 'a' = 1,", "    $ | 'a' = 1,", "`$$` without a name before `|`"),
+        ("builtin_no_name_let", "    let x = 'b' $$;\n    $x = 1,", "    let x = 'b' $;\n    $x = 1,",
+         "`$$` without a name in a `let`"),
+        ("builtin_no_name_ctx", "    'a' > $$ = 1,", "    'a' > $ = 1,", "`$$` without a name as right context"),
+        ("builtin_no_name_group", "    ($$) 'a' = 1,", "    ($$ascii_digit) 'a' = 1,", "`$$` without a name in a group"),
+        ("builtin_literal_name", "    $$'a' = 1,", "    $$ascii_digit 'a' = 1,", "`$$` followed by a literal"),
+        ("postfix_no_operand", "    * 'a' = 1,", "    'a'* 'a' = 1,", "postfix operator without operand"),
+        ("postfix_after_bar", "    'a' | + = 1,", "    'a' | 'b'+ = 1,", "postfix operator without operand after `|`"),
+        ("diff_no_right", "    ['a'-'z'] # = 1,", "    ['a'-'z'] # 'b' = 1,", "`#` without right operand"),
+        ("diff_no_left", "    # 'a' = 1,", "    _ # 'a' = 1,", "`#` without left operand"),
+        ("alt_no_left", "    | 'a' = 1,", "    'b' | 'a' = 1,", "`|` without left operand"),
+        ("empty_group", "    () 'a' = 1,", "    ('b') 'a' = 1,", "empty group"),
+        ("set_leading_dash", "    [-'a'] = 1,", "    ['a'-'a'] = 1,", "bracket set starting with `-`"),
+        ("set_string", '    ["ab"] = 1,', "    ['a' 'b'] = 1,", "string inside a bracket set"),
+        ("set_double_range", "    ['a'-'c'-'e'] = 1,", "    ['a'-'c' 'e'] = 1,", "range of a range"),
+        ("set_any", "    [_] = 1,", "    ['_'] = 1,", "`_` inside a bracket set"),
+        ("set_dots", "    ['a'..'c'] = 1,", "    ['a'-'c'] = 1,", "`..` instead of `-` in a bracket set"),
+        ("ctx_missing", "    'a' > = 1,", "    'a' > 'b' = 1,", "`>` without a right context"),
+        ("ctx_twice", "    'a' > 'b' > 'c' = 1,", "    'a' > 'b' 'c' = 1,", "two right contexts"),
+        ("rule_no_rhs", "    'a' = ,", "    'a' = 1,", "`=` without an action"),
+        ("rule_no_comma_between", "    'a' = 1 'b' = 2,", "    'a' = 1, 'b' = 2,", "missing comma between rules"),
+        ("let_no_name", "    let = 'a';\n    'a' = 1,", "    let x = 'a';\n    'a' = 1,", "`let` without a name"),
+        ("let_no_eq", "    let x 'a';\n    'a' = 1,", "    let x = 'a';\n    'a' = 1,", "`let` without `=`"),
+        ("let_no_semi", "    let x = 'a'\n    'b' = 1,", "    let x = 'a';\n    'b' = 1,", "`let` without `;`"),
+        ("let_empty", "    let x = ;\n    'b' = 1,", "    let x = 'a';\n    'b' = 1,", "`let` without a regex"),
+        ("ruleset_no_name", "    rule { 'a' = 1, }", "    rule Init { 'a' = 1, }", "rule set without a name"),
+        ("ruleset_no_braces", "    rule Init 'a' = 1,", "    rule Init { 'a' = 1, }", "rule set without braces"),
+        ("error_type_no_type", "    type Error;\n    'a' = 1,", "    type Error = u8;\n    'a' = 1,",
+         "error type declaration without a type"),
+        ("type_other_name", "    type Mistake = u8;\n    'a' = 1,", "    type Error = u8;\n    'a' = 1,",
+         "a type item that is not `Error`"),
+        ("int_literal", "    1 = 1,", "    '1' = 1,", "integer literal as a regex"),
+        ("byte_literal", "    b'a' = 1,", "    'a' = 1,", "byte literal as a regex"),
+        ("ident_regex", "    a = 1,", "    'a' = 1,", "bare identifier as a regex"),
+    ]
+    for nm, bad, good, note in slips:
+        pair("syntax_" + nm, lx(bad), lx(good), "malformed: " + note)
     return out
 
 
